@@ -43,6 +43,7 @@ MaxInt == 100000000
 Truthy(v) == CASE v.t = "num" -> v.v # 0
                [] v.t = "str" -> v.v # ""
                [] v.t = "bool" -> v.v
+               [] v.t = "ref" -> TRUE        \* arrays and objects are always truthy
                [] OTHER -> FALSE
 \* Numeric strings (3.1).  The strings of the generated programs are concatenations of letters,
 \* blanks and integers: such a string is numeric iff it is an optional "-" followed by digits only.
@@ -106,12 +107,14 @@ CmpRes(l, r) ==
   ELSE IF l.t = "null" /\ r.t = "null" THEN [k |-> "c", v |-> 0]
   ELSE IF l.t = "null" THEN [k |-> "c", v |-> 0 - 1]
   ELSE IF r.t = "null" THEN [k |-> "c", v |-> 1]
+  ELSE IF l.t = "ref" \/ r.t = "ref" THEN [k |-> "err"]     \* comparing an array or object: runtime error
   ELSE IF l.t = "str" /\ r.t = "str" THEN (IF l.v = r.v THEN [k |-> "c", v |-> 0] ELSE [k |-> "strneq"])
   ELSE LET a == NumOf(l) b == NumOf(r) IN [k |-> "c", v |-> IF a < b THEN 0 - 1 ELSE IF a > b THEN 1 ELSE 0]
 
 Compare(op, l, r) ==
   LET c == CmpRes(l, r) IN
   IF c.k = "open" THEN ROpen
+  ELSE IF c.k = "err" THEN RErr
   ELSE IF c.k = "strneq" THEN (IF op = "==" THEN ROk(VBool(FALSE)) ELSE IF op = "!=" THEN ROk(VBool(TRUE)) ELSE ROpen)
   ELSE ROk(VBool(CASE op = "<" -> c.v < 0 [] op = "<=" -> c.v <= 0 [] op = ">" -> c.v > 0
                     [] op = ">=" -> c.v >= 0 [] op = "==" -> c.v = 0 [] op = "!=" -> c.v # 0))
@@ -138,6 +141,45 @@ Touch(fr, name) == IF FrameOf(fr, name) = 0 THEN [fr EXCEPT ![1] = WithVar(fr[1]
 Assign(fr, name, v) ==
   LET i == IF FrameOf(fr, name) = 0 THEN 1 ELSE FrameOf(fr, name) IN [fr EXCEPT ![i] = WithVar(fr[i], name, v)]
 
+\* ---------------------------------------------------------------- containers (heap)
+\* Arrays and objects live in a heap and are handled by reference ([t |-> "ref", id]); scalars
+\* are copied.  Object keys come from a fixed universe listed in bytewise order (the order in
+\* which objects are printed and iterated); a key outside it makes the run open.
+VRef(id) == [t |-> "ref", id |-> id]
+CArr(items) == [t |-> "arr", items |-> items]
+CObj(m) == [t |-> "obj", m |-> m]
+KeyUniverse == <<"", "0", "1", "2", "3", "4", "5", "6", "7", "8", "9", "Zq", "a", "ab", "b", "bc", "c", "k", "n", "x y">>
+InKeys(k) == \E i \in 1..Len(KeyUniverse) : KeyUniverse[i] = k
+KeyRank(k) == CHOOSE i \in 1..Len(KeyUniverse) : KeyUniverse[i] = k
+SortedKeys(m) == LET ks == DOMAIN m IN
+  [i \in 1..Cardinality(ks) |-> CHOOSE k \in ks : Cardinality({j \in ks : KeyRank(j) < KeyRank(k)}) = i - 1]
+KeyOf(v) == IF v.t = "num" THEN NumText(v.v) ELSE v.v
+MethodNames == {"length", "push", "pop", "popfirst", "contains", "sort", "pluck", "split", "upper", "lower", "floor", "ceil", "round"}
+MapWith(m, k, v) == [x \in (DOMAIN m) \cup {k} |-> IF x = k THEN v ELSE m[x]]
+
+RECURSIVE JoinC(_)
+JoinC(ss) == IF ss = <<>> THEN "" ELSE IF Len(ss) = 1 THEN ss[1] ELSE ss[1] \o ", " \o JoinC(Tail(ss))
+Quoted(x) == "\"" \o x \o "\""
+
+\* the print format (C17): nested strings quoted; arrays [a, b]; objects {"k": v} in key order
+RECURSIVE Pretty(_, _, _, _)
+Pretty(h, v, nested, fuel) ==
+  IF fuel = 0 THEN "<deep>"
+  ELSE CASE v.t = "str" -> IF nested THEN Quoted(v.v) ELSE v.v
+         [] v.t = "ref" ->
+              LET c == h[v.id] IN
+              IF c.t = "arr" THEN "[" \o JoinC([i \in 1..Len(c.items) |-> Pretty(h, c.items[i], TRUE, fuel - 1)]) \o "]"
+              ELSE LET ks == SortedKeys(c.m) IN
+                   "{" \o JoinC([i \in 1..Len(ks) |-> Quoted(ks[i]) \o ": " \o Pretty(h, c.m[ks[i]], TRUE, fuel - 1)]) \o "}"
+         [] OTHER -> Show(v)
+RECURSIVE Deep(_, _, _)
+Deep(h, v, fuel) ==     \* nesting beyond the fuel (or a cycle): the run is open
+  IF v.t # "ref" THEN FALSE
+  ELSE IF fuel = 0 THEN TRUE
+  ELSE LET c == h[v.id] IN
+       IF c.t = "arr" THEN \E i \in 1..Len(c.items) : Deep(h, c.items[i], fuel - 1)
+       ELSE \E k \in DOMAIN c.m : Deep(h, c.m[k], fuel - 1)
+
 \* ---------------------------------------------------------------- the machine
 VARIABLE st
 
@@ -151,10 +193,64 @@ Drv(ph, ei, ri) == [t |-> "drv", ph |-> ph, ei |-> ei, ri |-> ri]
 InitState(p) ==
   [prog |-> p, ctl |-> <<S(p.begin), Drv("begin", 0, 0)>>, vs |-> <<>>, frames |-> << <<>> >>,
    out |-> <<>>, sig |-> "none", outcome |-> "running", open |-> FALSE, why |-> "", steps |-> 0, depth |-> 0,
-   dollar |-> VNull, index |-> VUnset]
+   dollar |-> VNull, index |-> VUnset, heap |-> <<>>]
 
-\* a JSON scalar of the input as a value
-InVal(x) == IF x.k = "num" THEN VNum(x.v) ELSE IF x.k = "str" THEN VStr(x.v) ELSE IF x.k = "bool" THEN VBool(x.v) ELSE VNull
+\* an element of the input as a value: a scalar, or a flat object (allocated in the heap)
+InScalar(x) == IF x.k = "num" THEN VNum(x.v) ELSE IF x.k = "str" THEN VStr(x.v) ELSE IF x.k = "bool" THEN VBool(x.v) ELSE VNull
+BindDollar(s, x) ==
+  IF x.k = "obj"
+  THEN LET m == [key \in {x.keys[i] : i \in 1..Len(x.keys)} |->
+                   InScalar(x.vals[CHOOSE i \in 1..Len(x.keys) : x.keys[i] = key])]
+       IN [s EXCEPT !.heap = Append(s.heap, CObj(m)), !.dollar = VRef(Len(s.heap) + 1)]
+  ELSE [s EXCEPT !.dollar = InScalar(x)]
+
+BaseOf(s, n) == IF n = "$" THEN s.dollar ELSE Lookup(s.frames, n)
+SetBase(s, n, v) == IF n = "$" THEN [s EXCEPT !.dollar = v] ELSE [s EXCEPT !.frames = Assign(s.frames, n, v)]
+\* an unset variable that is indexed becomes an empty array (numeric key) or an empty object
+Materialise(s, n, key) ==
+  IF n # "$" /\ Lookup(s.frames, n).t = "unset"
+  THEN LET s1 == [s EXCEPT !.heap = Append(s.heap, IF key.t = "num" THEN CArr(<<>>) ELSE CObj(<<>>))]
+       IN SetBase(s1, n, VRef(Len(s1.heap)))
+  ELSE s
+ArrIdx(len, i) == IF i < 0 THEN len + i ELSE i
+
+\* n[key] read: [k |-> "ok", v, s] | [k |-> "err", s] | [k |-> "open", s]
+IdxRead(s0, n, key) ==
+  LET s == Materialise(s0, n, key)
+      b == BaseOf(s, n)
+  IN IF b.t # "ref" THEN [k |-> "open", s |-> s]
+     ELSE LET c == s.heap[b.id] IN
+       IF c.t = "arr"
+       THEN IF key.t # "num" THEN [k |-> "open", s |-> s]
+            ELSE LET i == ArrIdx(Len(c.items), key.v) IN
+                 IF i < 0 THEN [k |-> "err", s |-> s]                     \* before the start: error
+                 ELSE IF i >= Len(c.items) THEN [k |-> "ok", v |-> VNull, s |-> s]   \* past the end: null, nothing changes
+                 ELSE [k |-> "ok", v |-> c.items[i + 1], s |-> s]
+       ELSE IF key.t \notin {"num", "str"} THEN [k |-> "err", s |-> s]
+       ELSE LET kk == KeyOf(key) IN
+            IF kk \in DOMAIN c.m THEN [k |-> "ok", v |-> c.m[kk], s |-> s]
+            ELSE IF kk \in MethodNames \/ ~InKeys(kk) THEN [k |-> "open", s |-> s]
+            ELSE [k |-> "ok", v |-> VNull, s |-> s]
+
+\* n[key] = v: [k |-> "ok", s] | [k |-> "err", s] | [k |-> "open", s]
+IdxWrite(s0, n, key, v) ==
+  LET s == Materialise(s0, n, key)
+      b == BaseOf(s, n)
+  IN IF b.t \in {"num", "bool", "null"} THEN [k |-> "err", s |-> s]       \* member store on a scalar
+     ELSE IF b.t # "ref" THEN [k |-> "open", s |-> s]
+     ELSE LET c == s.heap[b.id] IN
+       IF c.t = "arr"
+       THEN IF key.t # "num" THEN [k |-> "err", s |-> s]
+            ELSE LET len == Len(c.items)
+                     i == ArrIdx(len, key.v)
+                 IN IF i < 0 THEN [k |-> "err", s |-> s]
+                    ELSE IF i > 200 THEN [k |-> "open", s |-> s]
+                    ELSE LET padded == IF i >= len THEN c.items \o [j \in 1..(i - len + 1) |-> VNull] ELSE c.items
+                         IN [k |-> "ok", s |-> [s EXCEPT !.heap[b.id] = CArr([padded EXCEPT ![i + 1] = v])]]
+       ELSE IF key.t \notin {"num", "str"} THEN [k |-> "err", s |-> s]
+       ELSE LET kk == KeyOf(key) IN
+            IF kk \in MethodNames \/ ~InKeys(kk) THEN [k |-> "open", s |-> s]
+            ELSE [k |-> "ok", s |-> [s EXCEPT !.heap[b.id] = CObj(MapWith(c.m, kk, v))]]
 
 Fn(s, name) == LET i == CHOOSE j \in 1..Len(s.prog.fns) : s.prog.fns[j].name = name IN s.prog.fns[i]
 HasFn(s, name) == \E j \in 1..Len(s.prog.fns) : s.prog.fns[j].name = name
@@ -193,12 +289,56 @@ StepExpr(s, e, rest) ==
          \* a op= b means a = a op b: the left side is read first
          IF e.op = "=" THEN [s EXCEPT !.ctl = <<E(e.e), [t |-> "store", n |-> e.n]>> \o rest]
          ELSE [s EXCEPT !.ctl = <<E([k |-> "var", n |-> e.n]), E(e.e), [t |-> "bin", op |-> SubSeq(e.op, 1, 1)], [t |-> "store", n |-> e.n]>> \o rest]
+    [] e.k = "arr" ->     \* an array literal: elements left to right, scalars copied
+         [s EXCEPT !.ctl = [i \in 1..Len(e.items) |-> E(e.items[i])] \o <<[t |-> "mkarr", n |-> Len(e.items)]>> \o rest]
+    [] e.k = "obj" ->
+         [s EXCEPT !.ctl = [i \in 1..Len(e.vals) |-> E(e.vals[i])] \o <<[t |-> "mkobj", keys |-> e.keys]>> \o rest]
+    [] e.k = "idx" -> [s EXCEPT !.ctl = <<E(e.key), [t |-> "idxread", n |-> e.n]>> \o rest]
+    [] e.k = "asgidx" ->
+         \* n[key] = e: the target (and its key) first, then the value; n[key] op= e is n[key] = n[key] op e
+         IF e.op = "=" THEN [s EXCEPT !.ctl = <<E(e.key), E(e.e), [t |-> "idxwrite", n |-> e.n]>> \o rest]
+         ELSE [s EXCEPT !.ctl = <<E(e.key), E([k |-> "idx", n |-> e.n, key |-> e.key]), E(e.e),
+                                  [t |-> "bin", op |-> SubSeq(e.op, 1, 1)], [t |-> "idxwrite", n |-> e.n]>> \o rest]
+    [] e.k = "incidx" -> [s EXCEPT !.ctl = <<E(e.key), [t |-> "incidx", n |-> e.n, op |-> e.op, post |-> e.post]>> \o rest]
+    [] e.k = "mcall" ->
+         [s EXCEPT !.ctl = [i \in 1..Len(e.args) |-> E(e.args[i])] \o <<[t |-> "mcall", n |-> e.n, m |-> e.m, na |-> Len(e.args)]>> \o rest]
     [] e.k = "inc" ->
          LET old == NumOf(Lookup(s.frames, e.n))
              new == IF e.op = "++" THEN old + 1 ELSE old - 1
          IN Mark([s EXCEPT !.ctl = rest, !.frames = Assign(s.frames, e.n, VNum(new)),
                            !.vs = <<VNum(IF e.post THEN old ELSE new)>> \o s.vs],
                  Captured(s.frames, e.n) \/ ~InRange(new) \/ NumOpen(Lookup(s.frames, e.n)), "inc " \o e.n)
+
+\* for (v1[, v2] in n): the loop variables are found or created first, then the iterable is read;
+\* an array is iterated over its length at loop start, an object over its keys in key order
+StrChars(str) == [i \in 1..Len(str) |-> SubSeq(str, i, i)]
+ForInEnter(s, x, rest) ==
+  LET fr1 == Touch(s.frames, x.v1)
+      fr2 == IF x.v2 = "" THEN fr1 ELSE Touch(fr1, x.v2)
+      s1 == Mark([s EXCEPT !.frames = fr2], Captured(s.frames, x.v1) \/ (x.v2 # "" /\ Captured(s.frames, x.v2)), "captured loop variable")
+      it == BaseOf(s1, x.n)
+      item(kind, id, keys) == [t |-> "loop", kind |-> "forin", fk |-> kind, id |-> id, keys |-> keys, i |-> 0,
+                               v1 |-> x.v1, v2 |-> x.v2, b |-> x.b, ph |-> "test"]
+  IN IF it.t = "ref" THEN
+        LET c == s1.heap[it.id] IN
+        IF c.t = "arr" THEN [s1 EXCEPT !.ctl = <<item("arr", it.id, [j \in 1..Len(c.items) |-> ""])>> \o rest]
+        ELSE [s1 EXCEPT !.ctl = <<item("obj", it.id, SortedKeys(c.m))>> \o rest]
+     ELSE IF it.t = "str" THEN [s1 EXCEPT !.ctl = <<item("str", 0, StrChars(it.v))>> \o rest]
+     ELSE IF it.t = "unset" THEN Opened(s1, "for-in over an unset variable")
+     ELSE Fault(s1, rest)                 \* a number, a boolean, null: not iterable
+
+ForInStep(s, it, rest) ==
+  IF it.i >= Len(it.keys) THEN [s EXCEPT !.ctl = rest]
+  ELSE LET c == IF it.fk = "str" THEN CArr(<<>>) ELSE s.heap[it.id]
+           gone == it.fk = "arr" /\ it.i >= Len(c.items)       \* the array shrank meanwhile
+           first == CASE it.fk = "arr" -> IF gone THEN VNull ELSE c.items[it.i + 1]
+                      [] it.fk = "obj" -> VStr(it.keys[it.i + 1])
+                      [] it.fk = "str" -> VStr(it.keys[it.i + 1])
+           second == CASE it.fk = "obj" -> c.m[it.keys[it.i + 1]]
+                       [] OTHER -> VNum(it.i)
+           fr1 == Assign(s.frames, it.v1, first)
+           fr2 == IF it.v2 = "" THEN fr1 ELSE Assign(fr1, it.v2, second)
+       IN Mark([s EXCEPT !.frames = fr2, !.ctl = <<S(it.b), [it EXCEPT !.i = it.i + 1]>> \o rest], gone, "array shrank during for-in")
 
 StepStmt(s, x, rest) ==
   CASE x.k = "print" ->
@@ -208,6 +348,7 @@ StepStmt(s, x, rest) ==
     [] x.k = "if" -> [s EXCEPT !.ctl = <<E(x.c), [t |-> "if", th |-> x.th, el |-> x.el]>> \o rest]
     [] x.k = "while" -> [s EXCEPT !.ctl = <<[t |-> "loop", kind |-> "while", c |-> x.c, post |-> x.c, b |-> x.b, ph |-> "test"]>> \o rest]
     [] x.k = "for" -> [s EXCEPT !.ctl = <<E(x.init), [t |-> "drop"], [t |-> "loop", kind |-> "for", c |-> x.c, post |-> x.post, b |-> x.b, ph |-> "test"]>> \o rest]
+    [] x.k = "forin" -> ForInEnter(s, x, rest)
     [] x.k \in {"break", "continue", "exit", "next"} -> [s EXCEPT !.ctl = rest, !.sig = x.k]
     [] x.k = "return" ->
          IF x.e.k = "none" THEN [s EXCEPT !.ctl = rest, !.sig = "return", !.vs = <<VNull>> \o s.vs]
@@ -221,10 +362,35 @@ DrvStep(s, it) ==
     [] it.ph = "rules" /\ it.ri > nr -> [s EXCEPT !.ctl = <<Drv("rules", it.ei + 1, 1)>>]
     [] it.ph = "rules" ->
          LET r == s.prog.rules[it.ri]
-             s1 == [s EXCEPT !.dollar = InVal(s.prog.input[it.ei]), !.index = VNum(it.ei - 1)]
+             \* $ is bound once per element: what one rule does to it is seen by the next
+             s1 == IF it.ri = 1 THEN [BindDollar(s, s.prog.input[it.ei]) EXCEPT !.index = VNum(it.ei - 1)] ELSE s
          IN IF r.pat.k = "none" THEN [s1 EXCEPT !.ctl = <<S(r.body), Drv("rules", it.ei, it.ri + 1)>>]
             ELSE [s1 EXCEPT !.ctl = <<E(r.pat), [t |-> "pat", body |-> r.body], Drv("rules", it.ei, it.ri + 1)>>]
     [] it.ph = "end" -> [s EXCEPT !.ctl = <<>>, !.outcome = "ok"]
+
+\* n.m(args) for the array / object / string methods of the core: push, pop, length
+MethodCall(s, it, rest) ==
+  LET args == TopN(s.vs, it.na)
+      vs0 == DropN(s.vs, it.na)
+      \* the callee is looked up before the arguments: an unset receiver becomes an empty object
+      s1 == IF it.n # "$" /\ Lookup(s.frames, it.n).t = "unset" THEN Materialise(s, it.n, VStr(it.m)) ELSE s
+      b == BaseOf(s1, it.n)
+      ok(s2, v) == [s2 EXCEPT !.ctl = rest, !.vs = <<v>> \o vs0]
+      err == Fault([s1 EXCEPT !.vs = vs0], rest)
+  IN IF it.m \notin {"push", "pop", "length"} THEN Opened(s, "method " \o it.m)
+     ELSE IF \E i \in 1..it.na : args[i].t = "unset" THEN Opened(s, "unset argument")
+     ELSE IF b.t = "ref" THEN
+        LET c == s1.heap[b.id] IN
+        IF c.t = "arr" THEN
+           CASE it.m = "length" -> ok(s1, VNum(Len(c.items)))
+             [] it.m = "push" -> IF it.na # 1 THEN err
+                                 ELSE ok([s1 EXCEPT !.heap[b.id] = CArr(Append(c.items, args[1]))], b)
+             [] it.m = "pop" -> IF it.na # 0 THEN err
+                                ELSE IF c.items = <<>> THEN ok(s1, VNull)
+                                ELSE ok([s1 EXCEPT !.heap[b.id] = CArr(SubSeq(c.items, 1, Len(c.items) - 1))], c.items[Len(c.items)])
+        ELSE IF it.m = "length" THEN ok(s1, VNum(Cardinality(DOMAIN c.m))) ELSE err   \* objects have no push / pop
+     ELSE IF b.t = "str" THEN (IF it.m = "length" THEN ok(s1, VNum(Len(b.v))) ELSE err)
+     ELSE err      \* numbers, booleans, null have none of these methods: calling nothing is an error
 
 StepOp(s, it, rest) ==
   CASE it.t = "bin" ->
@@ -249,8 +415,8 @@ StepOp(s, it, rest) ==
     [] it.t = "print" ->
          LET args == TopN(s.vs, it.n) IN
          Mark([s EXCEPT !.ctl = rest, !.vs = DropN(s.vs, it.n),
-                        !.out = Append(s.out, JoinSp([i \in 1..it.n |-> Show(args[i])]))],
-              \E i \in 1..it.n : args[i].t = "unset", "print unset")
+                        !.out = Append(s.out, JoinSp([i \in 1..it.n |-> Pretty(s.heap, args[i], FALSE, 5)]))],
+              \E i \in 1..it.n : args[i].t = "unset" \/ Deep(s.heap, args[i], 4), "print unset / too deep")
     [] it.t = "if" ->
          LET c == Truthy(s.vs[1]) IN
          [s EXCEPT !.vs = Tail(s.vs),
@@ -270,6 +436,7 @@ StepOp(s, it, rest) ==
                            \E i \in 1..it.n : args[i].t = "unset", "unset argument")
     [] it.t = "callk" ->    \* the body fell off its end: the call yields null
          [s EXCEPT !.ctl = rest, !.frames = Tail(s.frames), !.depth = s.depth - 1, !.vs = <<VNull>> \o s.vs]
+    [] it.t = "loop" /\ it.kind = "forin" -> ForInStep(s, it, rest)
     [] it.t = "loop" ->
          IF it.ph = "test" THEN [s EXCEPT !.ctl = <<E(it.c), [t |-> "looptest"]>> \o s.ctl]
          ELSE [s EXCEPT !.ctl = <<E(it.post), [t |-> "drop"], [it EXCEPT !.ph = "test"]>> \o rest]
@@ -279,6 +446,40 @@ StepOp(s, it, rest) ==
          THEN [s EXCEPT !.vs = Tail(s.vs),
                         !.ctl = <<S(rest[1].b), [rest[1] EXCEPT !.ph = IF rest[1].kind = "for" THEN "post" ELSE "test"]>> \o Tail(rest)]
          ELSE [s EXCEPT !.vs = Tail(s.vs), !.ctl = Tail(rest)]
+    [] it.t = "mkarr" ->
+         [s EXCEPT !.ctl = rest, !.heap = Append(s.heap, CArr(TopN(s.vs, it.n))),
+                   !.vs = <<VRef(Len(s.heap) + 1)>> \o DropN(s.vs, it.n)]
+    [] it.t = "mkobj" ->
+         LET n == Len(it.keys)
+             vals == TopN(s.vs, n)
+             m == [key \in {it.keys[i] : i \in 1..n} |-> vals[SetMax({i \in 1..n : it.keys[i] = key})]]
+         IN Mark([s EXCEPT !.ctl = rest, !.heap = Append(s.heap, CObj(m)), !.vs = <<VRef(Len(s.heap) + 1)>> \o DropN(s.vs, n)],
+                 \E i \in 1..n : ~InKeys(it.keys[i]) \/ it.keys[i] \in MethodNames, "object literal key")
+    [] it.t = "idxread" ->
+         LET r == IdxRead(s, it.n, s.vs[1]) IN
+         IF r.k = "ok" THEN Mark([r.s EXCEPT !.ctl = rest, !.vs = <<r.v>> \o Tail(s.vs)], it.n # "$" /\ Captured(s.frames, it.n), "captured " \o it.n)
+         ELSE IF r.k = "err" THEN Fault([r.s EXCEPT !.vs = Tail(s.vs)], rest)
+         ELSE Opened(s, "index read " \o it.n)
+    [] it.t = "idxwrite" ->     \* vs: value on top, key below; the value of the assignment is the value
+         LET r == IdxWrite(s, it.n, s.vs[2], s.vs[1]) IN
+         IF s.vs[1].t = "unset" THEN Opened(s, "store unset")
+         ELSE IF r.k = "ok" THEN Mark([r.s EXCEPT !.ctl = rest, !.vs = <<s.vs[1]>> \o DropN(s.vs, 2)], it.n # "$" /\ Captured(s.frames, it.n), "captured " \o it.n)
+         ELSE IF r.k = "err" THEN Fault([r.s EXCEPT !.vs = DropN(s.vs, 2)], rest)
+         ELSE Opened(s, "index write " \o it.n)
+    [] it.t = "incidx" ->       \* n[key]++ : a missing element counts as 0 and is created
+         LET key == s.vs[1]
+             r == IdxRead(s, it.n, key)
+         IN IF r.k = "open" THEN Opened(s, "index read " \o it.n)
+            ELSE IF r.k = "err" THEN Fault([r.s EXCEPT !.vs = Tail(s.vs)], rest)
+            ELSE IF r.v.t \in {"unset", "ref"} \/ NumOpen(r.v) THEN Opened(s, "inc of a container")
+            ELSE LET old == NumOf(r.v)
+                     new == IF it.op = "++" THEN old + 1 ELSE old - 1
+                     w == IdxWrite(r.s, it.n, key, VNum(new))
+                 IN IF w.k = "ok" THEN Mark([w.s EXCEPT !.ctl = rest, !.vs = <<VNum(IF it.post THEN old ELSE new)>> \o Tail(s.vs)],
+                                            ~InRange(new) \/ (it.n # "$" /\ Captured(s.frames, it.n)), "incidx")
+                    ELSE IF w.k = "err" THEN Fault([w.s EXCEPT !.vs = Tail(s.vs)], rest)
+                    ELSE Opened(s, "index write " \o it.n)
+    [] it.t = "mcall" -> MethodCall(s, it, rest)
     [] it.t = "pat" ->     \* evalRules: the body runs iff the pattern is truthy
          IF Truthy(s.vs[1]) THEN [s EXCEPT !.vs = Tail(s.vs), !.ctl = <<S(it.body)>> \o rest]
          ELSE [s EXCEPT !.vs = Tail(s.vs), !.ctl = rest]
